@@ -22,6 +22,19 @@ CHECKS = {
          "Protocol proved for all states: handle_error records e, raises e itself iff forced or fail-fast, raises one CollectedParseError carrying everything recorded iff the max_errors cap is reached, else returns; "
          "raise_error returns iff nothing is recorded; sub-contexts start empty and leave the parent's lists untouched. Callers (verdict invariance: a normal return implies nothing recorded) are under contract as listed in the evidence; "
          "'names exactly the failing top-level items' is not decided.", "DESIGN 3 C10"),
+ "C11": ("proof", "contract-based deductive verification: filter/map/patch specifications by index as loop invariants of the real container parsers; field and extra-key policies as postconditions",
+         "Rule._parse_seq_args (list/tuple/set/frozenset/deque), _parse_tuple_args, _parse_map_args (all 3x3 key/value policies), ParserField.parse_value / parse_output_value, "
+         "BaseParser.parse_addition, FunctionParser.parse_pos_type: exclude = filter-map of the accepted elements (order kept), preserve = patch of the offenders, throw = map or error, "
+         "a required field is never silently excluded; element conversions are abstract (proved for every converter); all obligations discharged.", "DESIGN 3 C11"),
+ "C09": ("other", "contract-based deductive verification of LogicalType.logical_parse (union stages, exclusive-or, negation, conjunction fold) with abstract leaves",
+         "Combinator semantics proved on the real logical_parse for all inputs and argument lists: union = exact type unchanged, else first accepting argument in stage order; exclusive-or = exactly one argument accepts the given input (order independent); "
+         "negation; conjunction = fold of the running value; normal return leaves no recorded error. The construction algebra (combine / combine_by / operators) is not under contract yet - hence 'other'. One known finding (xor exact-type shortcut).", "DESIGN 3 C09"),
+ "C19": ("other", "contract-based deductive verification: freshness / frame obligations on the real functions",
+         "copy_value rebuilds list/set/frozenset/tuple/dict at every depth (fresh result, items are copies), ParserField.get_default hands out only copy_value results (force_default, default, default_factory) with the documented gates; "
+         "every contracted parse function carries `no input mutation` frame obligations and `fresh result`. Cross-call state (write sets of parser objects, generators) is not decided - hence 'other'.", "DESIGN 3 C19"),
+ "C05": ("other", "contract-based deductive verification of the field predicates against truth tables written from the documentation; consistency lemma",
+         "ParserField.is_required / is_no_input / always_no_input / is_no_output / always_no_output / get_on_error / get_default, BaseParser.parse_addition proved against the documented tables for bool / mode-string / callable settings; "
+         "always_* and is_* agree (lemma). The two field loops (data_first_parse, field_first_parse) are not under contract - hence 'other'.", "DESIGN 3 C05"),
  "C16": ("proof", "contract-based deductive verification: representation invariant of TypeRegistry preserved by every operation",
          "The registry's list/cache are related to an abstract view (entries with priority and ghost registration stamp); "
          "I1 priority order, I2 most-recent-first, I3 cache coherence, I4 stamps are established by __init__ and preserved by the register "
